@@ -48,8 +48,73 @@ pub open spec fn without_folder(docs: Map<DocId, IdxMeta>, f: Seq<u8>) -> Map<Do
     docs.restrict(docs.dom().filter(|d: DocId| d.0 != f))
 }
 
+/// unit search `StatsView` (what `DocumentCount` keeps: documents per folder, per kind with the archive
+/// folder left out, per tag, favourites) — opaque; the per-kind counters are read through `stats_kind`
+#[verifier::external_body]
+pub ghost struct StatsV { _p: () }
+/// unit search `s.kinds[kd]` (`DocumentCount::kinds()`, [kinds_is_view])
+pub uninterp spec fn stats_kind(s: StatsV, kd: u8) -> nat;
+/// unit search `secret_type_code(&m.kind)`: the kind byte of a document's meta data
+pub uninterp spec fn kind_code(m: IdxMeta) -> u8;
+/// unit search `recount(docs, archive)`: "the statistics of an index built from scratch over `docs`"
+pub uninterp spec fn recount(docs: Map<DocId, IdxMeta>, archive: Option<Seq<u8>>) -> StatsV;
+/// unit search `cnt(docs, p_kind(archive, kd))`: the documents of kind `kd` OUTSIDE the archive folder
+pub open spec fn kind_recount(docs: Map<DocId, IdxMeta>, archive: Option<Seq<u8>>, kd: u8) -> nat {
+    docs.dom().filter(|d: DocId| Some(d.0) != archive && kind_code(docs[d]) == kd).len()
+}
+/// unit search `recount`: `kinds: IMap::total(|kd: u8| cnt(docs, p_kind(archive, kd)))` (definition)
+pub axiom fn axiom_recount_kinds(docs: Map<DocId, IdxMeta>, archive: Option<Seq<u8>>)
+    ensures forall|kd: u8| stats_kind(recount(docs, archive), kd) == #[trigger] kind_recount(docs, archive, kd);
+/// unit search `lemma_inv_view` (IDX_INV part 2, `inv_counters`): under IDX_INV the counters equal a recount
+/// over the documents with the archive folder id the index holds
+pub axiom fn axiom_inv_counters(x: SearchIndex)
+    requires x.inv(),
+    ensures x.stats() == recount(x.docs(), x.archive());
+/// hypothesis of unit search [set_archive_keeps_inv]: no indexed document belongs to the folder that was
+/// or that becomes the archive folder
+pub open spec fn archive_switch_safe(docs: Map<DocId, IdxMeta>, a1: Option<Seq<u8>>, a2: Option<Seq<u8>>) -> bool {
+    forall|d: DocId| #[trigger] docs.contains_key(d) ==> Some(d.0) != a1 && Some(d.0) != a2
+}
+/// the view of an optional folder id
+pub open spec fn opt_id(a: Option<VaultId>) -> Option<Seq<u8>> {
+    match a { Some(x) => Some(x@), None => None }
+}
+
+/// search.rs:100 `struct DocumentCount { vaults, kinds, tags, favorites, archive }` — opaque; `sview()` = unit
+/// search `DocumentCount@`, `archive_id()` as there
+#[verifier::external_body]
+pub struct DocumentCount { _p: () }
+impl DocumentCount {
+    pub uninterp spec fn sview(&self) -> StatsV;
+    pub uninterp spec fn archive_id(&self) -> Option<Seq<u8>>;
+}
+impl Clone for DocumentCount {
+    /// search.rs:101 `#[derive(Default, Debug, Clone)]`: field-wise clone (`HashMap::clone`, `usize`, `Option<VaultId>`)
+    #[verifier::external_body]
+    fn clone(&self) -> (r: DocumentCount)
+        ensures r.sview() == self.sview(), r.archive_id() == self.archive_id(),
+    { unimplemented!() }
+}
+impl Default for DocumentCount {
+    /// search.rs:101 `#[derive(Default)]`: empty maps, zero, `None` (no contract: only built when there is no index)
+    #[verifier::external_body]
+    fn default() -> (r: DocumentCount) { unimplemented!() }
+}
+/// search.rs:248 `struct IndexStatistics { count: DocumentCount }` — opaque
+#[verifier::external_body]
+pub struct IndexStatistics { _p: () }
+impl IndexStatistics {
+    pub uninterp spec fn sview(&self) -> StatsV;
+    pub uninterp spec fn archive_id(&self) -> Option<Seq<u8>>;
+    /// unit search IndexStatistics [count_is_field]
+    #[verifier::external_body]
+    pub fn count(&self) -> (r: &DocumentCount)
+        ensures r.sview() == self.sview(), r.archive_id() == self.archive_id(),
+    { unimplemented!() }
+}
+
 /// search.rs `struct SearchIndex { index, documents, statistics }`.  Abstract state (unit
-/// search `IndexView`): `docs()` the document map, `archive()` the archive folder id;
+/// search `IndexView`): `docs()` the document map, `archive()` the archive folder id, `stats()` the counters;
 /// `inv()` = IDX_INV of unit search (documents keyed by (folder, secret), probly-search keys ==
 /// document keys, counters == recount(docs, archive)).
 #[verifier::external_body]
@@ -58,6 +123,24 @@ impl SearchIndex {
     pub uninterp spec fn docs(&self) -> Map<DocId, IdxMeta>;
     pub uninterp spec fn archive(&self) -> Option<Seq<u8>>;
     pub uninterp spec fn inv(&self) -> bool;
+    /// unit search `self@.stats`: the counters (`statistics.count`)
+    pub uninterp spec fn stats(&self) -> StatsV;
+
+    /// unit search SearchIndex [set_archive_view] (documents, keys and COUNTERS are as they were, the archive id
+    /// is the one given) and [set_archive_keeps_inv] (IDX_INV is kept when no indexed document belongs to the old
+    /// or to the new archive folder; nothing is promised otherwise: the per-kind counters are not recounted)
+    #[verifier::external_body]
+    pub fn set_archive_id(&mut self, archive: Option<VaultId>)
+        requires old(self).inv(),
+        ensures
+            final(self).docs() == old(self).docs(), final(self).stats() == old(self).stats(), final(self).archive() == opt_id(archive),
+            archive_switch_safe(old(self).docs(), old(self).archive(), opt_id(archive)) ==> final(self).inv(),
+    { unimplemented!() }
+    /// unit search SearchIndex [statistics_is_view]
+    #[verifier::external_body]
+    pub fn statistics(&self) -> (r: &IndexStatistics)
+        ensures r.sview() == self.stats(), r.archive_id() == self.archive(),
+    { unimplemented!() }
 
     /// unit search [prepare_some_iff_absent], [prepare_value]
     #[verifier::external_body]
